@@ -8,12 +8,17 @@ import (
 	"verifharness/hxlib"
 )
 
-const ruleText = "a case is one sandbox (component fst|ds|upd, root at depth 1-4 below the sandbox top, surrounded by ancestors with files, " +
-	"siblings '<root>-other', '<root>x', 'other' holding well-formed decoys) plus 8-24 calls with generated names: benign segment paths, " +
+const ruleText = "a case is one sandbox (component fst|ds|dsh|upd, root at depth 1-4 below the sandbox top, surrounded by ancestors with files, " +
+	"siblings '<root>-other', '<root>x', 'other' (well-formed decoys + plain files) and '<root>-old' (decoy only)) plus 8-24 calls with generated names: benign segment paths, " +
 	"existing entries, mixes of '.', '..', empty segments and odd segments, climbs of 1..depth+3 parent references followed by a sibling / " +
 	"ancestor / the root's own name, absolute paths (below the root, the root itself with suffixes '/', '/.', '/..', '-other', 'x', siblings, " +
-	"sandbox top, '/'), relative scan roots against several working directories, zip archives with 1-5 such entry names; a separate stream " +
-	"(implementation + oracle only) has NUL bytes, 300-byte segments and climbs of depth+6. lib cases compare filepath.Clean/Dir/Join/Rel and " +
+	"sandbox top, '/'), relative scan roots against several working directories, zip archives with 1-5 such entry names. " +
+	"fst: Put/Get/GetMeta/Delete/Query; a third of the names resolve to the root itself ('', '.', '../<root>', 'd/..'); 'fss' lines change what stands at the root's place " +
+	"behind the open database (root removed, replaced by a record file, intermediate directory missing / replaced by a file, extra entries extending a directory's name, a non-record file, empty). " +
+	"dsh: a history of calls on ONE DirStructure tree (ChildDir with plain, multi-element and escaping names on any node; Ensure on any node; EnsureAbsPath/EnsureRelPath/EnsureRelDir " +
+	"aimed at every element (in particular the base name) of the names children were registered with, below the child's parent, from the root, or through another node; generic names); " +
+	"the directory content is emptied before every call, created directories are compared with their modes. upd: storage dir as top-level structure or (variant nested) as a child node of a structure rooted at its parent. " +
+	"A separate stream (implementation + oracle only) has NUL bytes, 300-byte segments, NAME_MAX boundaries inside and outside the root and climbs of depth+6. lib cases compare filepath.Clean/Dir/Join/Rel and " +
 	"path.Base with the model on every string over {'/','.','a'} up to length 6 (pairs up to length 3) and on random strings. " +
 	"A case is non-trivial if at least one of its names contains a parent reference, an absolute prefix or a sibling name; distinct by the hash of its lines."
 
@@ -60,7 +65,7 @@ func (g *gctx) benign() string {
 }
 
 func (g *gctx) siblings() []string {
-	return []string{g.rootName + "-other", g.rootName + "x", "other", g.rootName + "-new", g.rootName + ".", g.rootName + " "}
+	return []string{g.rootName + "-other", g.rootName + "x", "other", g.rootName + "-old", g.rootName + "-new", g.rootName + ".", g.rootName + " "}
 }
 
 // relName generates a relative name (key, entry name, relative path) and the name of its class.
@@ -195,6 +200,144 @@ func (g *gctx) absName() (string, string) {
 	}
 }
 
+// dshOps generates a history of calls on one DirStructure tree: ChildDir with plain, multi-element and escaping
+// names on any node; Ensure on any node; Ensure* requests aimed at the registered children (every element of the
+// name a child was registered with, in particular its base name, requested below the child's parent — directly,
+// from the root, or through another node), and generic names.  The generator mirrors the node numbering
+// (a repeated ChildDir with the same name on the same node returns the existing child).
+// climbsOut: would resolving p lexically from "/" leave the first level of the virtual world (the disposable case
+// directory)?  Chained ChildDir names add up their parent references; no generated request may point above it.
+func climbsOut(p string) bool {
+	depth := 0
+	for _, sg := range strings.Split(p, "/") {
+		switch sg {
+		case "", ".":
+		case "..":
+			if depth <= 1 {
+				return true
+			}
+			depth--
+		default:
+			depth++
+		}
+	}
+	return false
+}
+
+func (g *gctx) dshOps(n int) []string {
+	rng := g.rng
+	type node struct {
+		parent int
+		name   string
+		vpath  string // as named: parent's path + "/" + name (unresolved)
+	}
+	nodes := []node{{-1, "", g.vroot}}
+	idx := map[string]int{}
+	perms := []string{"700", "750", "755", "711", "770"}
+	var ops []string
+	cnt := func(op, cls string) { g.r.Count("gen:" + op + ":" + cls) }
+	chd := func(h int, name, cls string) {
+		if climbsOut(nodes[h].vpath + "/" + name) {
+			name, cls = pick(rng, []string{"up", "../up"}), "plain"
+			if climbsOut(nodes[h].vpath + "/" + name) {
+				name = "up"
+			}
+		}
+		ops = append(ops, fmt.Sprintf("chd %d %s %s", h, hx(name), pick(rng, perms)))
+		cnt("chd", cls)
+		k := fmt.Sprintf("%d/%s", h, name)
+		if _, ok := idx[k]; !ok {
+			idx[k] = len(nodes)
+			nodes = append(nodes, node{h, name, nodes[h].vpath + "/" + name})
+		}
+	}
+	for len(ops) < n {
+		h := rng.Intn(len(nodes))
+		if rng.Intn(3) != 0 {
+			h = 0
+			if len(nodes) > 1 && rng.Intn(3) == 0 {
+				h = 1 + rng.Intn(len(nodes)-1)
+			}
+		}
+		switch x := rng.Intn(100); {
+		case x < 30 || len(nodes) == 1:
+			switch y := rng.Intn(100); {
+			case y < 25:
+				chd(h, pick(rng, []string{"tmp", "sub", "a", "b", "evil", "k"}), "plain")
+			case y < 40:
+				chd(h, pick(rng, []string{"tmp/", "./tmp", "a/b", "a/../b", "tmp/sub", "/abs", "", ".", "a//b", "x/./y"}), "multi-inside")
+			case y < 80:
+				g.hostile = true
+				chd(h, pick(rng, []string{"../evil", "../" + g.rootName + "-other", "../" + g.rootName + "x", "../other", "x/../../evil", "..", "../..",
+					"../" + g.rootName, "../" + g.rootName + "/k", "../" + g.rootName + "-new", "../../evil", "../evil/sub", "a/../../" + g.rootName + "-other/sub",
+					"../top.txt", "../note.txt", "../" + g.rootName + "-other/plain.txt"}), "escaping")
+			default:
+				name, cls := g.relName()
+				chd(h, name, cls)
+			}
+		case x < 40:
+			ops = append(ops, fmt.Sprintf("hens %d", h))
+			cnt("hens", "node")
+		case x < 75:
+			// aim at a registered child: an element of its name, requested below its parent
+			c := nodes[1+rng.Intn(len(nodes)-1)]
+			var segs []string
+			for _, sg := range strings.Split(c.name, "/") {
+				if sg != "" && sg != "." && sg != ".." {
+					segs = append(segs, sg)
+				}
+			}
+			if len(segs) == 0 {
+				segs = []string{"tmp"}
+			}
+			sg := segs[len(segs)-1]
+			cls := "child-base"
+			if rng.Intn(4) == 0 {
+				sg, cls = pick(rng, segs), "child-element"
+			}
+			rel := sg
+			for i := rng.Intn(3); i > 0; i-- {
+				rel += "/" + pick(rng, insidePool)
+			}
+			switch rng.Intn(4) {
+			case 0:
+				ops = append(ops, fmt.Sprintf("henr %d %s", c.parent, hx(rel)))
+				cnt("henr", cls)
+			case 1:
+				ops = append(ops, fmt.Sprintf("hend %d %s", c.parent, hxList(strings.Split(rel, "/"))))
+				cnt("hend", cls)
+			case 2:
+				// the same request as an absolute path, through any node
+				ops = append(ops, fmt.Sprintf("hena %d %s", h, hx(nodes[c.parent].vpath+"/"+rel)))
+				cnt("hena", cls)
+			default:
+				// below the root, whatever the child's parent is
+				ops = append(ops, fmt.Sprintf("henr 0 %s", hx(rel)))
+				cnt("henr", cls+"-from-root")
+			}
+		case x < 83:
+			name, cls := g.relName()
+			if climbsOut(nodes[h].vpath + "/" + name) {
+				name, cls = g.benign(), "benign"
+			}
+			ops = append(ops, fmt.Sprintf("henr %d %s", h, hx(name)))
+			cnt("henr", cls)
+		case x < 90:
+			name, cls := g.relName()
+			if climbsOut(nodes[h].vpath + "/" + name) {
+				name, cls = g.benign(), "benign"
+			}
+			ops = append(ops, fmt.Sprintf("hend %d %s", h, hxList(strings.Split(name, "/"))))
+			cnt("hend", cls)
+		default:
+			name, cls := g.absName()
+			ops = append(ops, fmt.Sprintf("hena %d %s", h, hx(name)))
+			cnt("hena", cls)
+		}
+	}
+	return ops
+}
+
 func emitCase(r *hxlib.Run, emit func(hxlib.Case), comp, rootRel, variant, cwdRel string, noModel bool, kind string, ops func(g *gctx) []string) {
 	g := &gctx{r: r, rng: r.Rng, comp: comp, rootRel: rootRel}
 	segs := strings.Split(rootRel, "/")
@@ -232,7 +375,7 @@ func generate(r *hxlib.Run, emit func(hxlib.Case)) {
 		g.hostile = true
 		return []string{"put " + hx("../root-other/evil"), "get " + hx("../root-other/secret"), "del " + hx("../root-other/secret"),
 			"qry " + hx("../root-other"), "qry " + hx("../root-other/"), "put " + hx("."), "del " + hx("d/../.."), "put " + hx("../rootx"), "qry " + hx("../rootx/q"),
-			"get " + hx("a"), "qry -", "put " + hx("n/m"), "del " + hx("a")}
+			"get " + hx("a"), "gmt " + hx("d/b"), "gmt " + hx("../root-other/secret"), "gmt " + hx("nope"), "qry -", "put " + hx("n/m"), "del " + hx("a")}
 	})
 	emitCase(r, emit, "ds", "w/a/root", "plain", "", false, "corpus", func(g *gctx) []string {
 		g.hostile = true
@@ -248,14 +391,48 @@ func generate(r *hxlib.Run, emit func(hxlib.Case)) {
 			"unz " + hxList([]string{"d/", "d/f", "../x"}), "unz " + hxList([]string{"d/", "d/f", "g"}), "unz " + hxList([]string{"/abs"})}
 	})
 
+	emitCase(r, emit, "upd", "w/a/root", "nested", "w", false, "corpus", func(g *gctx) []string {
+		g.hostile = true
+		return []string{"scan " + hx(g.vroot+"-other"), "scan " + hx(g.vroot+"/../other"), "scan " + hx(SB+"/w/a"), "scan " + hx(SB+"/w/a/missing"), "scan " + hx("a/root-old"),
+			"scan -", "scan " + hx(g.vroot+"/all"), "unz " + hxList([]string{"ok.txt", "../../../root-other/evil"}), "unz " + hxList([]string{"d/", "d/f", "g"})}
+	})
+
+	// the database directory removed / replaced by a file / changed while the storage is open, prefixes resolving to the root
+	emitCase(r, emit, "fst", "w/db", "plain", "", false, "corpus", func(g *gctx) []string {
+		g.hostile = true
+		var ops []string
+		for _, st := range []string{"rmroot", "rootfile", "rmd", "dfile", "extra", "bad", "empty"} {
+			ops = append(ops, "fss "+st, "qry -", "qry "+hx("."), "qry "+hx("../db"), "qry "+hx("../db/"), "qry "+hx("d"), "qry "+hx("d/"), "qry "+hx("d/e"),
+				"qry "+hx("../db-other"), "get "+hx("a"), "get "+hx("d/b"), "put "+hx("n/m"), "del "+hx("d/b"), "qry "+hx("x/y"))
+		}
+		return ops
+	})
+
+	// histories on one DirStructure tree (seeded C18-r2-2: a child registered under an escaping name serves a later in-scope request)
+	emitCase(r, emit, "dsh", "w/a/root", "plain", "", false, "corpus", func(g *gctx) []string {
+		g.hostile = true
+		return []string{"chd 0 " + hx("../evil") + " 700", "hens 1", "henr 0 " + hx("evil/sub"), "chd 0 " + hx("../root-other") + " 700",
+			"hena 0 " + hx(g.vroot+"/root-other"), "chd 0 " + hx("tmp") + " 700", "chd 2 " + hx("sub") + " 750", "chd 3 " + hx("../../../rootx") + " 711",
+			"hend 3 " + hxList([]string{"sub", "rootx", "q"}), "hena 4 " + hx(g.vroot+"/tmp/rootx"), "chd 0 " + hx("tmp") + " 711", "henr 0 " + hx("tmp/./k"),
+			"chd 0 " + hx("./tmp") + " 750", "henr 0 " + hx("tmp")}
+	})
+
 	// ---- generated cases ----------------------------------------------------------------------------
-	nCases := r.Budget(1500, 30000)
+	nCases := r.Budget(2000, 30000)
 	for ci := 0; ci < nCases; ci++ {
 		rootRel := pick(rng, rootRels)
-		comp := []string{"fst", "ds", "upd"}[ci%3]
+		comp := []string{"fst", "ds", "upd", "dsh"}[ci%4]
 		variant := "plain"
+		if comp == "dsh" {
+			variant = []string{"plain", "plain", "slash", "noexist"}[rng.Intn(4)]
+			emitCase(r, emit, comp, rootRel, variant, "", false, comp, func(g *gctx) []string { return g.dshOps(8 + rng.Intn(17)) })
+			continue
+		}
 		if comp == "ds" {
 			variant = []string{"plain", "plain", "slash", "noexist"}[rng.Intn(4)]
+		}
+		if comp == "upd" && rng.Intn(3) == 0 {
+			variant = "nested"
 		}
 		cwd := pick(rng, cwdChoices(rootRel))
 		emitCase(r, emit, comp, rootRel, variant, cwd, false, comp, func(g *gctx) []string {
@@ -267,11 +444,11 @@ func generate(r *hxlib.Run, emit func(hxlib.Case)) {
 			for i := 0; i < n; i++ {
 				switch comp {
 				case "fst":
-					op := []string{"put", "get", "del", "qry", "get", "put"}[rng.Intn(6)]
+					op := []string{"put", "get", "del", "qry", "get", "put", "qry", "gmt"}[rng.Intn(8)]
 					name, cls := g.relName()
 					if rng.Intn(25) == 0 {
 						name, cls = "", "empty"
-					} else if (op == "get" || op == "del" || op == "qry") && rng.Intn(4) == 0 {
+					} else if (op == "get" || op == "gmt" || op == "del" || op == "qry") && rng.Intn(4) == 0 {
 						// an existing entry, possibly reached through a detour
 						name, cls = pick(rng, g.staticNames()), "existing"
 						switch rng.Intn(4) {
@@ -281,6 +458,17 @@ func generate(r *hxlib.Run, emit func(hxlib.Case)) {
 							name, cls = "../"+g.rootName+"/"+name, "existing-reenter"
 							g.hostile = true
 						}
+					}
+					if rng.Intn(3) == 0 {
+						// a name that resolves to the root itself
+						name, cls = pick(rng, []string{"", ".", "./", "../" + g.rootName, "../" + g.rootName + "/", "d/..", "d/../", "x/y/../..", "../" + g.rootName + "/."}), "root-itself"
+						g.hostile = true
+					}
+					if i == 0 && rng.Intn(2) == 0 || rng.Intn(8) == 0 {
+						// the file system below the root changes behind the back of the open database
+						st := pick(rng, []string{"rmroot", "rmroot", "rootfile", "rootfile", "rmd", "dfile", "extra", "bad", "empty", "plain"})
+						ops = append(ops, "fss "+st)
+						count("fss", st)
 					}
 					ops = append(ops, op+" "+hx(name))
 					count(op, cls)
@@ -348,7 +536,11 @@ func generate(r *hxlib.Run, emit func(hxlib.Case)) {
 			var ops []string
 			for i := 0; i < 8; i++ {
 				var name string
-				switch rng.Intn(5) {
+				switch rng.Intn(7) {
+				case 5:
+					name = "ok/a\x00b/" + pick(rng, insidePool) // stays inside the root: the OS refuses the name
+				case 6:
+					name = pick(rng, insidePool) + "/" + strings.Repeat("z", 255+rng.Intn(3)) + "/k" // inside the root, at and beyond NAME_MAX
 				case 0:
 					name = "a\x00/../../" + g.rootName + "-other/x"
 				case 1:
@@ -363,7 +555,7 @@ func generate(r *hxlib.Run, emit func(hxlib.Case)) {
 				}
 				switch comp {
 				case "fst":
-					ops = append(ops, pick(rng, []string{"put", "get", "del", "qry"})+" "+hx(name))
+					ops = append(ops, pick(rng, []string{"put", "get", "gmt", "del", "qry"})+" "+hx(name))
 				case "ds":
 					if rng.Intn(2) == 0 {
 						ops = append(ops, "enr r "+hx(name))
